@@ -135,6 +135,55 @@ def euler_advection(ctx, dim, shape, field_type):
         ctx.same_array("velocity_untouched", u, u0)
 
 
+@scenario
+def repeated_calls_with_reused_buffer(ctx, which, shape):
+    """history: the same generated kernel called twice with the SAME flux-buffer object whose content is arbitrary again at the
+    second call (a scratch buffer shared with other operators, as in the simulators)"""
+    _, spne, _, _ = sopht_modules()
+    ctx.prefer = "nlsat"
+    shape = tuple(shape)
+    vs = (3, *shape)
+    flux = spne.gen_vorticity_stretching_flux_pyst_kernel_3d(real_t=ctx.real_t, num_threads=False)
+    if which == "ssprk3":
+        mid = ctx.array("mid", vs)
+        step = spne.gen_vorticity_stretching_timestep_ssprk3_pyst_kernel_3d(real_t=ctx.real_t, midstep_buffer_vector_field=mid, num_threads=False)
+    elif which == "euler":
+        step = spne.gen_vorticity_stretching_timestep_euler_forward_pyst_kernel_3d(real_t=ctx.real_t, num_threads=False)
+    else:
+        step = None
+    w, u, fb = ctx.array("w", vs), ctx.array("u", vs), ctx.array("fluxbuf", vs)
+    p = ctx.scalar("dt_by_2_dx")
+
+    def A(x, uu):
+        buf = ctx.array("oraclebuf", vs)
+        flux(vorticity_stretching_flux_field=buf, vorticity_field=x, velocity_field=uu, prefactor=ctx.cast(p))
+        return buf
+
+    for call in range(2):
+        if call == 1:
+            # something else used the scratch buffer in between
+            fb[...] = ctx.array("fluxbuf_dirty", vs)
+            w[...] = ctx.array("w2", vs)
+        w0, u0 = w.copy(), u.copy()
+        if which == "flux":
+            flux(vorticity_stretching_flux_field=fb, vorticity_field=w, velocity_field=u, prefactor=ctx.cast(p))
+            ref_flux = ctx.array("oraclebuf2", vs)
+            # independent closed form of the flux (ring zero)
+            from ref import kernels_ref as R
+
+            ctx.eq_array(f"call{call}:flux_equals_closed_form", fb, R.stretching_flux_3d(ref_flux, w0, u0, p))
+            continue
+        step(vorticity_field=w, velocity_field=u, vorticity_stretching_flux_field=fb, dt_by_2_dx=ctx.cast(p))
+        a1 = A(w0, u0)
+        if which == "euler":
+            ref = w0 + a1
+        else:
+            a2 = A(a1, u0)
+            a3 = A(a2, u0)
+            ref = w0 + a1 + a2 / 2 + a3 / 6
+        ctx.eq_array(f"call{call}:{which}_equals_scheme", w, ref)
+
+
 def main():
     chk = Check(
         "C20",
@@ -165,6 +214,8 @@ def main():
             chk.add(euler_stretching, real_t=rt, shape=sh)
             for ft in ("scalar", "vector"):
                 chk.add(euler_diffusion, real_t=rt, dim=3, shape=sh, field_type=ft)
+        for which in ("flux", "euler", "ssprk3"):
+            chk.add(repeated_calls_with_reused_buffer, real_t=rt, which=which, shape=(4, 5, 5))
         for sh in sadv3:
             for ft in ("scalar", "vector"):
                 chk.add(euler_advection, real_t=rt, dim=3, shape=sh, field_type=ft)
